@@ -2873,6 +2873,7 @@ impl<E: Effect> Executor<E> {
             (Value::Builtin(a), Value::Builtin(b)) => a == b,
             (Value::Process(a, func_a), Value::Process(b, func_b)) => a == b && func_a == func_b,
             (Value::Reference(a), Value::Reference(b)) => a == b,
+            (Value::Resource(a, _), Value::Resource(b, _)) => a == b,
             _ => false,
         }
     }
